@@ -218,7 +218,9 @@ def angle_vec(rng, twod, kind):
     else:
         n = rng.normal(size=3)
         n /= np.linalg.norm(n)
-    if kind == "near0":
+    if kind == "nearid":
+        th = float(rng.choice([0.0, 0.0, 1e-6, 1e-5, 1e-4]))
+    elif kind == "near0":
         th = float(rng.choice([1e-6, 1e-5, 1e-4, 1e-3]))
     elif kind == "nearpi":
         th = np.pi - float(rng.choice([0.0, 1e-9, 1e-7, 1e-5, 1e-3]))
@@ -243,6 +245,17 @@ def make(e, rng, cname, mode):
         elif cname.startswith("Affine"):
             v[6:9] = np.log(rng.choice([0.5, 1.0, 2.0, 4.0], 3))
             v[9:12] = quarter_vec(rng, twod)
+    elif mode == "nearid":
+        # very close to, but not at, the identity in every non-translation parameter:
+        # log-scales of a few parts in 1e-8 .. 1e-4, rotations of 0 .. 1e-4 rad
+        tiny = [1e-8, 1e-7, 1e-6, 4e-6, 2e-5, 1e-4]
+        v[0:3] = np.round(rng.uniform(-30, 30, 3), 3)
+        v[3:6] = angle_vec(rng, twod, "nearid")
+        if cname.startswith("Similarity"):
+            v[6:9] = float(rng.choice(tiny)) * float(rng.choice([-1, 1]))
+        elif cname.startswith("Affine"):
+            v[6:9] = rng.choice(tiny, 3) * rng.choice([-1, 1], 3)
+            v[9:12] = angle_vec(rng, twod, "nearid")
     else:
         v[0:3] = np.round(rng.uniform(-30, 30, 3), 3)
         v[3:6] = angle_vec(rng, twod, mode)
@@ -483,6 +496,37 @@ def sec_m44(ck, e, T, rng):
     ck.section("m44", per_size=N)
 
 
+def derived_param_checks(ck, e, c, how, replay):
+    """An object obtained from inv() / compose() / copy() (built by the library with default constructor options
+    and then patched up) must behave like a directly constructed one: `c.param = c.param` leaves the mapping
+    alone, assigned parameters read back, and a fresh object of the same class and preconditioner given the same
+    parameter vector agrees on the class's parameter slots."""
+    A0 = c.as_affine().copy()
+    v0 = np.array(c._vec12, dtype=float)
+    p0 = np.array(c.param, dtype=float)
+    rp = dict(replay, derived_by=how, derived_class=type(c).__name__, derived_precond=np.asarray(c.precond).tolist())
+    c.param = c.param
+    sc = max(1.0, float(np.max(np.abs(A0))))
+    if not close(c.as_affine(), A0, 1e-12):
+        ck.fail("%s/param-roundtrip-changes-mapping" % how,
+                "on the result of %s, `t.param = t.param` changes as_affine() by %g" % (how, maxerr(c.as_affine(), A0)), rp)
+        return
+    p1 = p0 + np.round(np.linspace(-1, 1, p0.size) * 4) / 8
+    c.param = p1
+    if not close(c.param, p1, 1e-12):
+        ck.fail("%s/param-readback" % how, "on the result of %s, param reads %s after assigning %s"
+                % (how, np.asarray(c.param).tolist(), p1.tolist()), rp)
+    inds = list(c.param_inds)
+    want = p1 * np.asarray(c.precond, dtype=float)[inds]
+    if not close(np.asarray(c._vec12)[inds], want, 1e-12):
+        ck.fail("%s/param-set-ignores-preconditioner" % how,
+                "on the result of %s, assigning param does not store p * precond in the natural parameters" % how, rp)
+    c.param = p0
+    if not close(c.as_affine(), A0, 1e-12):
+        ck.fail("%s/param-restore-changes-mapping" % how, "on the result of %s, re-assigning the original parameter vector does not "
+                "restore the mapping (difference %g)" % (how, maxerr(c.as_affine(), A0)), rp)
+
+
 def check_compose(ck, e, T, rng, a, b, mode, tag):
     """a.compose(b): property oracle + model term.  Returns the composed transform or None."""
     am = e.am
@@ -526,12 +570,14 @@ def check_compose(ck, e, T, rng, a, b, mode, tag):
             return None
         return "(qcompose %s %s %s)" % (cxf(va), cxf(vb), o)
     add_model(e, T, mk, c, mode == "quarter", "%s/model-vs-impl" % tag, replay, e.fx_owner.get(nc), Ma @ Mb, svd_last, dev)
+    derived_param_checks(ck, e, c, tag, replay)
     return c
 
 
 def sec_compose(ck, e, T, rng):
     per = ck.n(2, 30)
-    modes = ["quarter"] * (per + 1) + ["any"] * per + ["near0"] * max(1, per // 2) + ["nearpi"] * max(1, per // 2)
+    modes = ["quarter"] * (per + 1) + ["any"] * per + ["near0"] * max(1, per // 2) + ["nearpi"] * max(1, per // 2) \
+        + ["nearid"] * max(1, per // 2)
     n = 0
     for na, nb in itertools.product(CLASSES, CLASSES):
         for mode in modes:
@@ -571,9 +617,15 @@ def check_inv(ck, e, T, rng, a, mode, tag="inv"):
         ck.fail("%s/class-changed" % tag, "%s.inv() is a %s" % (na, type(c).__name__), replay)
     if not np.array_equal(c.precond, a.precond):
         ck.fail("%s/precond-not-inherited" % tag, "inverse does not carry the preconditioner", replay)
-    if inv_last is None:
-        return c
-    Minv = inv_last[1]
+    # the function inverse_affine on the same matrix: a two-sided inverse
+    Mi2 = e.am.inverse_affine(Ma.copy())
+    cond = float(np.linalg.cond(Ma))
+    if not (close(Mi2 @ Ma, np.eye(4), 1e-13 * cond) and close(Ma @ Mi2, np.eye(4), 1e-13 * cond)):
+        ck.fail("inverse_affine/not-an-inverse/%s" % mode, "inverse_affine(M) @ M differs from the identity by %g (cond %g)"
+                % (maxerr(Mi2 @ Ma, np.eye(4)), cond), dict(replay, matrix=Ma.tolist()))
+    # oracle value for the model: what spl.inv returned inside inv(), or (if the code did not ask SciPy) an
+    # independently computed inverse - the contract of inv_apply is only that it is a two-sided inverse
+    Minv = inv_last[1] if inv_last is not None else np.linalg.inv(Ma)
 
     def mk(exact, o):
         va = view(e, a, exact)
@@ -582,6 +634,7 @@ def check_inv(ck, e, T, rng, a, mode, tag="inv"):
             return None
         return "(qinv %s %s %s)" % (cxf(va), cmatq(Mi), o)
     add_model(e, T, mk, c, mode == "quarter", "%s/model-vs-impl" % tag, replay, e.fx_owner[na], Minv, svd_last, dev)
+    derived_param_checks(ck, e, c, tag, replay)
     return c
 
 
@@ -589,7 +642,7 @@ def sec_inv(ck, e, T, rng):
     per = ck.n(6, 40)
     n = 0
     for na in CLASSES:
-        for mode in ["quarter"] * per + ["any"] * per + ["near0", "nearpi"] * max(1, per // 3):
+        for mode in ["quarter"] * per + ["any"] * per + ["near0", "nearpi"] * max(1, per // 3) + ["nearid"] * max(3, per // 2):
             a = make(e, rng, na, mode)
             ck.count(("inv", na, tuple(a._vec12), a.is_direct), bucket="inv:" + mode)
             check_inv(ck, e, T, rng, a, mode)
@@ -599,6 +652,11 @@ def sec_inv(ck, e, T, rng):
                     and np.array_equal(cp.precond, a.precond) and cp._vec12 is not a._vec12):
                 ck.fail("copy/differs", "%s.copy() differs from the original (class / _direct / matrix / precond)" % na,
                         {"class": na, "vec12": a._vec12.tolist(), "direct": bool(a.is_direct)})
+            derived_param_checks(ck, e, cp, "copy", {"class": na, "vec12": a._vec12.tolist(), "direct": bool(a.is_direct),
+                                                     "precond": np.asarray(a.precond).tolist()})
+            if not np.array_equal(a.as_affine(), ref_matrix(e, a)) and not close(a.as_affine(), ref_matrix(e, a), 1e-12):
+                ck.fail("copy/changing-the-copy-changes-the-original", "%s: assigning param on a copy changed the original" % na,
+                        {"class": na, "vec12": a._vec12.tolist()})
             n += 1
     ck.section("inv", cases=n)
 
@@ -785,16 +843,43 @@ def sec_stateful(ck, e, T, rng):
             for st in range(length):
                 kinds = ["use-apply", "use-as_affine", "use-compose", "use-inv", "use-copy", "use-chain",
                          "set-param", "set-param", "set-param-roundtrip", "set-chain-param", "set-" + str(rng.choice(setters)),
-                         "from_matrix44"]
+                         "from_matrix44", "become-inv", "become-copy", "become-compose"]
                 op = str(rng.choice(kinds)) if st > 0 else "use-apply"
                 steps += 1
                 ck.count(("stateful", cname, sq, st, op), bucket="stateful:" + op.split("-")[0])
                 before_v = np.array(t._vec12, dtype=float)
                 before_d = bool(t.is_direct)
+                before_A = t.as_affine().copy() if op in ("set-param-roundtrip", "become-copy") else None
                 detail = None
                 begin(e)
                 try:
-                    if op == "use-apply":
+                    if op.startswith("become-"):
+                        # continue the sequence on an object DERIVED from t (the library builds it with default
+                        # constructor options and patches it up): it must carry t's options (preconditioner)
+                        old_pre = np.array(t.precond, dtype=float)
+                        if op == "become-inv":
+                            t = t.inv()
+                        elif op == "become-copy":
+                            t = t.copy()
+                        else:
+                            # compose with a transform whose parameter set is contained in t's: class is kept
+                            sub = [n_ for n_ in CLASSES if set(e.cls[n_].param_inds) <= set(klass.param_inds)]
+                            o = make(e, rng, str(rng.choice(sub)), "any")
+                            detail = {"other": type(o).__name__, "other_vec12": o._vec12.tolist(), "other_direct": bool(o.is_direct)}
+                            t = t.compose(o)
+                            if cname.endswith("2D") and not type(o).__name__.endswith("2D"):
+                                conform = False
+                        if type(t) is not klass:
+                            ck.fail("state/derived-class-changed/" + op, "%s: %s returned a %s" % (cname, op, type(t).__name__),
+                                    {"class": cname, "sequence": hist + [[op, detail]]})
+                            break
+                        if not np.array_equal(np.asarray(t.precond), old_pre):
+                            ck.fail("state/derived-object-loses-preconditioner/" + op, "%s: the result of %s does not carry the preconditioner "
+                                    "of the transform it was derived from" % (cname, op), {"class": cname, "radius": radius, "sequence": hist + [[op, detail]]})
+                        if cname == "Affine2D" or (cname.endswith("2D") and op != "become-copy"):
+                            conform = conform and op == "become-copy"      # SVD / inverse leave the in-plane parameter set only numerically
+                        ct = ChainTransform(t, pre=pre, post=post)
+                    elif op == "use-apply":
                         t.apply(x)
                     elif op == "use-as_affine":
                         t.as_affine()
@@ -845,6 +930,12 @@ def sec_stateful(ck, e, T, rng):
                 replay = {"class": cname, "radius": radius, "sequence": hist, "vec12_now": np.asarray(t._vec12).tolist(),
                           "direct_now": bool(t.is_direct), "points": x.tolist()}
                 tag = op.split("-")[0] if op != "from_matrix44" else "from_matrix44"
+                # re-assigning the parameters that were just read must not move anything
+                if op == "set-param-roundtrip" and not close(t.as_affine(), before_A, 1e-12):
+                    ck.fail("state/param-roundtrip-changes-mapping", "%s: `t.param = t.param` changed as_affine() by %g"
+                            % (cname, maxerr(t.as_affine(), before_A)), replay)
+                if op == "become-copy" and not close(t.as_affine(), before_A, 0):
+                    ck.fail("state/copy-differs", "%s: copy() maps points differently" % cname, replay)
                 # (b) uses leave the object alone
                 if op.startswith("use-") and not (np.array_equal(before_v, t._vec12) and before_d == bool(t.is_direct)):
                     ck.fail("state/use-changes-object/" + op, "%s: %s changed the transform it was called on" % (cname, op), replay)
@@ -908,8 +999,21 @@ def rand_part(e, rng, kind):
         mats = np.array([make(e, rng, "Affine", "any").as_affine() for _ in range(nc)])
         sigma = float(rng.uniform(3, 10))
         twin = PolyAffine(centers.copy(), mats.copy(), sigma)        # never handed to the code under test
-        return PolyAffine(centers.copy(), mats.copy(), sigma), (lambda q, twin=twin: twin.apply(q)), \
-            {"polyaffine": {"centers": centers.tolist(), "affines": mats.tolist(), "sigma": sigma}}
+        desc = {"polyaffine": {"centers": centers.tolist(), "affines": mats.tolist(), "sigma": sigma, "glob_affine": None}}
+        how = str(rng.choice(["none", "ctor-matrix", "ctor-object", "compose"]))
+        if how == "none":
+            return PolyAffine(centers.copy(), mats.copy(), sigma), (lambda q, twin=twin: twin.apply(q)), desc
+        # a PolyAffine that already carries a global affine G (applied first): T(x) = sum_i w_i(G x) T_i G x
+        g = make(e, rng, str(rng.choice(CLASSES)), "any")
+        G = g.as_affine().copy()
+        desc["polyaffine"]["glob_affine"] = {"how": how, "matrix": G.tolist()}
+        if how == "ctor-matrix":
+            P = PolyAffine(centers.copy(), mats.copy(), sigma, glob_affine=G.copy())
+        elif how == "ctor-object":
+            P = PolyAffine(centers.copy(), mats.copy(), sigma, glob_affine=g)
+        else:
+            P = PolyAffine(centers.copy(), mats.copy(), sigma).compose(g)
+        return P, (lambda q, twin=twin, G=G: twin.apply(apply_affine(G, q))), desc
     if kind == "callable":
         k = int(rng.integers(0, 3))
         c = float(np.round(rng.uniform(0.5, 2.0), 3))
@@ -1084,6 +1188,7 @@ def sec_pool(ck, e, rng):
     for sq in range(nseq):
         x = pts(rng, 5)
         pool = []        # (object, reference function, description)
+        pool_desc = []   # full description of the PolyAffine members for the replay
 
         def add_callable():
             k = int(rng.integers(0, 3))
@@ -1100,19 +1205,15 @@ def sec_pool(ck, e, rng):
             pool.append((a, lambda q, M=M: apply_affine(M, q), nm))
 
         def add_poly():
-            nc = int(rng.integers(1, 3))
-            centers = rng.uniform(-10, 10, (nc, 3))
-            mats = np.array([make(e, rng, "Affine", "any").as_affine() for _ in range(nc)])
-            sigma = float(rng.uniform(3, 10))
-            P = PolyAffine(centers.copy(), mats.copy(), sigma)
-            twin = PolyAffine(centers.copy(), mats.copy(), sigma)       # never used as an operand
-            pool.append((P, lambda q, twin=twin: twin.apply(q), "PolyAffine(%d)" % nc))
+            P, ref, d = rand_part(e, rng, "polyaffine")
+            g = d["polyaffine"]["glob_affine"]
+            pool.append((P, ref, "PolyAffine(%d%s)" % (len(d["polyaffine"]["centers"]), ", glob via %s" % g["how"] if g else "")))
+            pool_desc.append(d)
         add_callable()
         add_callable()
         add_affine()
         add_affine()
-        if sq % 2 == 0:
-            add_poly()
+        add_poly()
         if sq % 3 == 0:
             add_callable()
         base = [ref(x) for _, ref, _ in pool]
@@ -1153,8 +1254,8 @@ def sec_pool(ck, e, rng):
                 break
             if bad is not None:
                 k, d, err, sc, far = bad
-                replay = {"initial": [dd for _, _, dd in pool[:len(base)]], "steps": log, "wrong_member": k, "member": d,
-                          "error": err, "points": x.tolist()}
+                replay = {"initial": [dd for _, _, dd in pool[:len(base)]], "polyaffines": pool_desc, "steps": log, "wrong_member": k,
+                          "member": d, "error": err, "points": x.tolist()}
                 if far:
                     ck.fail(PA_FAR, "inside %s a PolyAffine kernel call received a point whose Gaussian weights all underflow "
                             "(sum < 1e-200): the kernel returns a wrongly normalised value there, so the composition differs from "
@@ -1214,6 +1315,34 @@ def sec_generic(ck, e, rng):
             ck.fail("polyaffine/compose-changes-local-affines", "compose changed the local affines", rp)
         if not close(P.compose(tg).apply(x), P.apply(g(x)), 1e-8):
             ck.fail("polyaffine/compose-callable", "PolyAffine.compose(Transform(g)) wrong", rp)
+        # a PolyAffine with / without a global affine in every composition position
+        Pg, fP, dP = rand_part(e, rng, "polyaffine")
+        a1, fa1, da1 = rand_part(e, rng, "affine")
+        b1, fb1, db1 = rand_part(e, rng, str(rng.choice(["affine", "affine", "callable"])))
+        rpp = {"P": dP, "a": da1, "b": db1, "points": x.tolist()}
+        glob = "with-glob" if dP["polyaffine"]["glob_affine"] else "no-glob"
+        ck.count(("polyaffine-pos", i, glob), bucket="polyaffine:" + glob)
+        positions = [
+            ("P", lambda: Pg, lambda q: fP(q)),
+            ("a.compose(P)", lambda: a1.compose(Pg), lambda q: fa1(fP(q))),
+            ("P.compose(b)", lambda: Pg.compose(b1), lambda q: fP(fb1(q))),
+            ("a.compose(P.compose(b))", lambda: a1.compose(Pg.compose(b1)), lambda q: fa1(fP(fb1(q)))),
+            ("a.compose(P).compose(b)", lambda: a1.compose(Pg).compose(b1), lambda q: fa1(fP(fb1(q)))),
+            ("b.compose(a.compose(P))", lambda: b1.compose(a1.compose(Pg)), lambda q: fb1(fa1(fP(q)))),
+            ("P again", lambda: Pg, lambda q: fP(q)),
+        ]
+        for name, build, ref in positions:
+            e.pa_unnormalised = 0
+            try:
+                got = build().apply(x)
+            except Exception as ex:  # noqa
+                ck.fail("polyaffine/position-raises/" + glob, "%s raised %s: %s" % (name, type(ex).__name__, ex), dict(rpp, expression=name))
+                continue
+            want = ref(x)
+            if not close(got, want, 1e-8):
+                ck.fail(PA_FAR if e.pa_unnormalised else "polyaffine/composition-differs-from-sequential/%s" % glob,
+                        "%s (PolyAffine %s) differs from the sequential application by %g" % (name, glob, maxerr(got, want)),
+                        dict(rpp, expression=name))
         # normalised weights: T(x) = sum_i w_i(x) T_i x with sum_i w_i = 1, so T(x) lies in the bounding box of the
         # T_i x - also far away from every centre (distance 12, 25, 45 sigma)
         for far in (12.0, 25.0, 45.0):
